@@ -133,6 +133,26 @@ def crypt(ctx, rep):
         rep.info.setdefault('assert_partitions', {})[cfg + ':crypt'] = len(I.aborts)
         for o in outs:
             _crypt_partition(P, I, rep, f, w, o, fo, seed, before)
+        if cfg[0] == 'D':
+            def probe(val):
+                I4 = mk_interp(P); st4 = State(); seed4, _ = symbolic_seed(I4, st4, canonical=True); st4.mem.new('password', 8, 0)
+                for k, b in enumerate(I4.V.bv('nfkd.len', 64).bits): st4.cons.add(b, (val >> k) & 1)
+                return I4, I4.run(f, [seed4, Ptr('password', 0)], st4)
+            assert_probe(ctx, rep, f, 'password', probe)
+
+
+def assert_probe(ctx, rep, f, what, probe):
+    """assertion-enabled configurations: the library may assert the normaliser's contract (length < POLYSEED_STR_SIZE) and non-NULL arguments, nothing
+    narrower. Probed at the boundary lengths with everything else symbolic."""
+    rep.rule('ASSERT-1', 'builds with assertions: with valid (non-NULL) arguments and the injected normaliser reporting a length of 0, 1 or POLYSEED_STR_SIZE-1 '
+             '(empty, one-byte and longest admissible %s; all other inputs symbolic) no assertion of the function can fail - the only input contract asserted '
+             'is the documented one' % what)
+    size = ctx.tables().str_size()
+    for val in (0, 1, size - 1):
+        I4, outs4 = probe(val)
+        rep.check(bool(outs4) and not I4.aborts, '%s: no assertion can fail when the normalised %s has length %d' % (base_name(f.name), what, val), I4.aborts[0][0] if I4.aborts else loc_of(f),
+                  '%s with normalised length %d' % (base_name(f.name), val), detail=[str(a)[:200] for a in I4.aborts[:2]], sample={'function': base_name(f.name), 'length': val, 'aborting_partitions': len(I4.aborts)},
+                  key='ASSERT-1|%s|%d' % (base_name(f.name), val))
 
 
 def _crypt_partition(P, I, rep, f, w, o, fo, seed, before):
@@ -329,7 +349,7 @@ def create(ctx, rep):
                  'arg & 7; birthday = birthday_encode(time) < 2^10; checksum = Horner form of the packed seed; every byte of the block written, no '
                  'UNINIT byte read; *seed_out = block; exits: UNSUPPORTED before any allocation, MEMORY when the allocator fails')
         def bday(I, st, args, inst):
-            st.trace.append(('birthday_encode', I.V.show_bv(args[0])[:2], inst.loc))
+            st.trace.append(('birthday_encode', [st.cons.reduce(b) for b in args[0].bits] if isinstance(args[0], BV) else repr(args[0]), inst.loc))
             return BV(I.V.bv('bday', 10).bits + [0] * 22)
         I = mk_interp(P, extra={'birthday_encode': bday}); st = State()
         st.mem.new('seed_out', 8, U)
@@ -369,6 +389,9 @@ def create(ctx, rep):
             rep.check(ft == ef, 'features = argument & 7', w, 'create features', detail=[I.V.show(b) for b in ft[:6]], key='CREATE|features')
             bd = get(o.state, H, fo['birthday'][0], 4).bits
             rep.check(bd == I.V.bv('bday', 10).bits + [0] * 22, 'birthday = birthday_encode(dep:time())', w, 'create birthday', detail=[I.V.show(b) for b in bd[:12]], key='CREATE|birthday')
+            be = [t for t in tr if t[0] == 'birthday_encode']
+            rep.check(len(be) == 1 and be[0][1] == I.V.bv('time', 64).bits, 'birthday_encode is applied once, to the unmodified 64-bit value returned by dep:time()', w, 'create birthday',
+                      detail=[I.V.show(b) for b in be[0][1][:14]] if be and isinstance(be[0][1], list) else str(be)[:200], sample={'argument_bits_0_2': [I.V.show(b) for b in be[0][1][:3]]} if be and isinstance(be[0][1], list) else None, key='CREATE|birthday-arg')
             nun = sum(1 for c in o.state.mem.objs[H] if not isinstance(c, tuple) and any(b == U for b in c))
             rep.check(nun == 0, 'every byte of the fresh block is written (never assumed zero)', w, 'create initialisation', detail={'uninit_bytes': nun}, key='CREATE|init')
             ur = [e for e in o.state.events if e[0] in ('uninit-read', 'branch-on-uninit')]
@@ -509,28 +532,38 @@ def decoders(ctx, rep):
         results = {}
         for fname in ('polyseed_decode', 'polyseed_decode_explicit'):
             f = P.fn(fname); w = loc_of(f)
-            I = mk_interp(P, extra=_phrase_summaries(None, status))
-            # three reachable shapes of the reserved mask are covered by making the user bits of the mask symbolic: use reserved = 15 (default)
-            st = State()
-            st.mem.new('str', 8, 0); st.mem.new('seed_out', 8, U); st.mem.new('lang_out', 8, U)
-            coin = BV(I.V.bv('coin', GF_BITS).bits + [0] * (32 - GF_BITS))
-            if fname == 'polyseed_decode':
-                args = [Ptr('str', 0), coin, Ptr('lang_out', 0), Ptr('seed_out', 0)]
-            else:
-                st.mem.new('lang', 8, 0)
-                from .ir import LANG_STRUCT
-                lf_ = {n_: (o_, sz_) for o_, (n_, sz_) in P.field_table(LANG_STRUCT).items()}
-                def lang_hook(I_, st_, ptr, nbytes, inst, as_ptr, lf_=lf_):
-                    c0 = ptr.parts[0] if ptr.parts else ptr.coff()
-                    for nm_, (o_, sz_) in lf_.items():
-                        if o_ == c0 and nm_ in ('is_sorted', 'has_prefix', 'has_accents', 'compose'):
-                            return BV([I_.V.bit('lang.' + nm_)] + [0] * (8 * nbytes - 1))
-                        if o_ == c0 and nm_ in ('name', 'name_en', 'separator'): return Tag(nm_)
-                    raise Unmodelled('decoder reads the language table at offset %s (%s)' % (c0, inst.loc))
-                st.mem.hooks = {'lang': lang_hook}
-                args = [Ptr('str', 0), coin, Ptr('lang', 0), Ptr('seed_out', 0)]
+            def build(fname=fname):
+                I = mk_interp(P, extra=_phrase_summaries(None, status))
+                # three reachable shapes of the reserved mask are covered by making the user bits of the mask symbolic: use reserved = 15 (default)
+                st = State()
+                st.mem.new('str', 8, 0); st.mem.new('seed_out', 8, U); st.mem.new('lang_out', 8, U)
+                coin = BV(I.V.bv('coin', GF_BITS).bits + [0] * (32 - GF_BITS))
+                if fname == 'polyseed_decode':
+                    args = [Ptr('str', 0), coin, Ptr('lang_out', 0), Ptr('seed_out', 0)]
+                else:
+                    st.mem.new('lang', 8, 0)
+                    from .ir import LANG_STRUCT
+                    lf_ = {n_: (o_, sz_) for o_, (n_, sz_) in P.field_table(LANG_STRUCT).items()}
+                    def lang_hook(I_, st_, ptr, nbytes, inst, as_ptr, lf_=lf_):
+                        c0 = ptr.parts[0] if ptr.parts else ptr.coff()
+                        for nm_, (o_, sz_) in lf_.items():
+                            if o_ == c0 and nm_ in ('is_sorted', 'has_prefix', 'has_accents', 'compose'):
+                                return BV([I_.V.bit('lang.' + nm_)] + [0] * (8 * nbytes - 1))
+                            if o_ == c0 and nm_ in ('name', 'name_en', 'separator'): return Tag(nm_)
+                        raise Unmodelled('decoder reads the language table at offset %s (%s)' % (c0, inst.loc))
+                    st.mem.hooks = {'lang': lang_hook}
+                    args = [Ptr('str', 0), coin, Ptr('lang', 0), Ptr('seed_out', 0)]
+                return I, st, args
+            I, st, args = build()
+            coin = args[1]
             outs = I.run(f, args, st)
             results[fname] = (I, outs)
+            if cfg[0] == 'D':
+                def probe(val, build=build, f=f):
+                    I4, st4, args4 = build()
+                    for k, b in enumerate(I4.V.bv('nfkd.len', 64).bits): st4.cons.add(b, (val >> k) & 1)
+                    return I4, I4.run(f, args4, st4)
+                assert_probe(ctx, rep, f, 'phrase', probe)
             rep.rule('DEC-EXITS', 'exit summaries of polyseed_decode / polyseed_decode_explicit (tokeniser, phrase search and injected functions '
                      'summarised; 16 word indices and the coin as symbols): the statuses are exactly the documented ones, and the first failing stage '
                      'decides: NUM_WORDS before the phrase search; LANG/MULT_LANG returned unchanged before any checksum work; CHECKSUM before any '
@@ -867,7 +900,23 @@ def _search_summary(I, mode, per_word_lang=None):
     per_word_lang: for that language each lookup has its own outcome bit W[wi]"""
     calls = []
     def ls(I, st, args, inst):
-        lang, word, cmp_ = args[0], args[1], args[2]
+        # arguments are recognised by kind, not position (the helper's signature may be rearranged / passed as a struct)
+        flat = []
+        for a_ in args:
+            if isinstance(a_, Agg): flat += list(a_.fields.values())
+            elif isinstance(a_, Ptr) and a_.obj.startswith('a:') and a_.obj in st.mem.objs and a_.coff() == 0:
+                # a request structure passed by value (byval copy of a local): its pointer-sized members
+                cells = st.mem.objs[a_.obj]
+                for k in range(0, len(cells) - 7, 8):
+                    c = cells[k]
+                    if isinstance(c, tuple) and c[0] in ('ptr', 'tag') and c[2] == 0: flat.append(c[1])
+            else: flat.append(a_)
+        langs_ = [a_ for a_ in flat if isinstance(a_, Ptr) and (a_.obj.startswith('g:polyseed_lang') or a_.obj == 'lang')]
+        words_ = [a_ for a_ in flat if isinstance(a_, Tag) and a_.kind == 'token']
+        cmps_ = [a_ for a_ in flat if isinstance(a_, Ptr) and a_.obj.startswith('f:')]
+        if len(langs_) != 1 or len(words_) != 1 or len(cmps_) != 1:
+            raise Unmodelled('lang_search called with an unrecognised argument shape at %s' % inst.loc)
+        lang, word, cmp_ = langs_[0], words_[0], cmps_[0]
         ln = lang.obj[2:] if isinstance(lang, Ptr) else repr(lang)
         wi = word.payload if isinstance(word, Tag) and word.kind == 'token' else None
         calls.append((ln, wi, repr(cmp_), inst.fn.name))
@@ -970,6 +1019,36 @@ def detection(ctx, rep):
                           detail={'W': [I3.V.show(b) for b in W], 'status': rv}, sample={'language': ln, 'lookups': ''.join('1' if b == 1 else ('0' if b == 0 else '?') for b in W), 'status': rv} if firstfail in (None, 0, 15) else None,
                           key='DETECT-WORD|%s|%s' % (ln, firstfail))
             rep.check(len(outs3) == 17, '%s: 17 partitions (all found, or first failure at word 0..15)' % ln, w, 'phrase_decode inner loop', detail=len(outs3), key='DETECT-WORD|%s|count' % ln)
+        rep.rule('DETECT-PARTIAL', 'a language that recognises only some leading words of the phrase leaves no trace: with language A matching all 16 words, '
+                 'language B having one outcome bit per word (17 outcomes: first failure at word 0..15, or all found) and every other language not matching, '
+                 'a B that fails somewhere gives OK with exactly A\'s 16 indices and A\'s table in *lang_out, whatever the order of A and B in the registry; '
+                 'a B that finds all 16 gives MULT_LANG')
+        if ctx.tier == 'quick' or cfg != 'NsS': pairs = [(0, len(langs) - 1), (len(langs) - 1, 0), (len(langs) // 2, len(langs) // 2 + 1)]      # (all ordered pairs once, in the release configuration)
+        else: pairs = [(x, y) for x in range(len(langs)) for y in range(len(langs)) if x != y]
+        for pa, pb in pairs:
+            la, lb = langs[pa], langs[pb]
+            ls5, calls5 = _search_summary(None, 'lang', per_word_lang=lb)
+            I5 = mk_interp(P, extra={'lang_search': ls5}); st5 = State()
+            for other in langs:
+                if other != lb: st5.cons.add(I5.V.bit('M[%s]' % other), 1 if other == la else 0)
+            outs5 = I5.run(f, setup(I5, st5), st5)
+            for o in outs5:
+                C = o.state.cons
+                W = [C.reduce(I5.V.bit('W[%d]' % k)) for k in range(16)]
+                rv = inv.get(o.ret.concrete(), str(o.ret))
+                allset = all(b == 1 for b in W)
+                firstfail = next((k for k, b in enumerate(W) if b == 0), None)
+                cons = 'phrase_decode, %s matches, %s finds %s' % (la.replace('polyseed_lang_', ''), lb.replace('polyseed_lang_', ''), 'all words' if allset else 'the first %s word(s)' % firstfail)
+                if allset:
+                    rep.check(rv == 'POLYSEED_ERR_MULT_LANG', 'both languages match -> MULT_LANG', w, cons, detail=rv, key='DETECT-PARTIAL|%s|%s|all' % (la, lb))
+                else:
+                    bad = [k for k in range(16) if [C.reduce(b) for b in get(o.state, 'idx_out', 8 * k, 8).bits] != [C.reduce(b) for b in I5.V.bv('r[%s][%s]' % (la, k), GF_BITS).bits] + [0] * 53]
+                    lo = I5.load(o.state, Ptr('lang_out', 0), 8, f.blocks[0][0], as_ptr=True)
+                    rep.check(rv == 'POLYSEED_OK' and not bad and lo == Ptr('g:' + la, 0), 'OK with the 16 indices and the table of the one matching language', w, cons,
+                              detail={'status': rv, 'words_with_wrong_index': bad, 'lang_out': repr(lo)},
+                              sample={'matching': la, 'partial': lb, 'first_failure': firstfail, 'status': rv} if firstfail in (1, 15) else None,
+                              key='DETECT-PARTIAL|%s|%s|%s' % (la, lb, firstfail))
+            rep.check(len(outs5) == 17, '17 partitions for the partially matching language', w, 'phrase_decode (%s full, %s partial)' % (la, lb), detail=len(outs5), key='DETECT-PARTIAL|%s|%s|count' % (la, lb))
         # explicit decoder
         g = P.fn('polyseed_phrase_decode_explicit'); wg = loc_of(g)
         ln = langs[0]
